@@ -539,3 +539,10 @@ func TimersFire() {}
 // Quiesce lets every other goroutine run until it finishes or blocks, like Settle, but the
 // order in which they get there IS explored (every interleaving at their scheduling points).
 func Quiesce() { time.Sleep(50 * time.Millisecond) }
+
+// UseModel: from here on calls of the named function or method (as printed by go/ssa, e.g.
+// "github.com/pion/dtls/v2.ClientWithContext" or "(*github.com/pion/dtls/v2.Conn).ConnectionState")
+// run fn instead - a model of a third-party engine written down by the harness from its
+// documented callback protocol.  Only in the engine: natively a no-op (such harnesses replay in
+// the engine).
+func UseModel(name string, fn interface{}) {}
